@@ -68,6 +68,7 @@ func runTCP(e *Exchange, p Ports, o execOpts) string {
 	var conns []net.Conn
 	var resp []*bytes.Buffer
 	var wg sync.WaitGroup
+	var rmu sync.Mutex
 	getConn := func(i int) (net.Conn, error) {
 		for len(conns) <= i {
 			conns = append(conns, nil)
@@ -98,9 +99,11 @@ func runTCP(e *Exchange, p Ports, o execOpts) string {
 			tmp := make([]byte, 4096)
 			for {
 				n, err2 := c.Read(tmp)
+				rmu.Lock()
 				if n > 0 && buf.Len() < 1<<16 {
 					buf.Write(tmp[:n])
 				}
+				rmu.Unlock()
 				if err2 != nil {
 					return
 				}
@@ -117,6 +120,17 @@ func runTCP(e *Exchange, p Ports, o execOpts) string {
 		if err != nil {
 			class = "dial-error"
 			break
+		}
+		if w.WaitResp {
+			for i := 0; i < 100; i++ {
+				rmu.Lock()
+				got := resp[w.Conn].Len()
+				rmu.Unlock()
+				if got > 0 {
+					break
+				}
+				time.Sleep(20 * time.Millisecond)
+			}
 		}
 		_ = c.SetWriteDeadline(time.Now().Add(5 * time.Second))
 		if len(w.Data) > 0 {
